@@ -24,7 +24,8 @@ META = {
         'that discards a cell is a duplicate, a blank, or - for a constant '
         'covered by an array formula - is matched by the caller enqueuing the '
         'covering formula.'
-        ' (cachekey) the per-run cache of sheet extents is keyed by what the cached value is computed from (the worksheet, not its title).'),
+        ' (cachekey) the per-run cache of sheet extents is keyed by what the cached value is computed from (the worksheet, not its title).'
+        ' (carry) what a node of the work-list becomes - cells or an error placeholder - is not decided by a container the loop fills while processing other nodes.'),
     'not_decided': (
         'Equality of values with the fully loaded model and idempotence of '
         'finish().'),
@@ -457,7 +458,11 @@ def run(ctx):
     from .common import rule_cachekey
     from .modelstate import rule_snapshot
     from .c03 import _bounds
+    from .c14 import rule_carry
     return [S(rule_worklist, ctx), S(rule_drop, ctx),
             S(rule_snapshot, ctx, 'C15', 'C15.snapshot'),
             S(_bounds, ctx, 'C15'),
-            S(rule_cachekey, ctx, 'C15', 'C15.cachekey', [EXCEL])]
+            S(rule_cachekey, ctx, 'C15', 'C15.cachekey', [EXCEL]),
+            # what a node becomes must not depend on which other nodes the
+            # work-list happened to process before it (shared with C14)
+            S(rule_carry, ctx, 'C15', 'C15.carry')]
